@@ -481,6 +481,12 @@ func (vc *VC) execConvert(x *ssa.Convert, pc string, st *State) {
 				hname := vc.enc.HeapFor(sl.Elem())
 				h := vc.heapGet(st, hname)
 				vc.assume(pc, fmt.Sprintf("(forall ((k!c Int)) (! (=> (and (<= 0 k!c) (< k!c (slen %s))) (= (select %s (elemloc %s k!c)) (sat %s k!c))) :pattern ((select %s (elemloc %s k!c)))))", v, h, r, v, h, r))
+				if vc.w.cs.SpecFuncs["bytesStr"] != nil {
+					// the text of the fresh byte slice is the string it was converted from
+					vc.enc.Declare("sf_bytesStr", "(declare-fun sf_bytesStr ((Array Loc Int) Slice) Str)")
+					vc.usedFns["bytesStr"] = true
+					vc.assume(pc, eq(sx("sf_bytesStr", h, r), v))
+				}
 				return
 			}
 		}
